@@ -9,6 +9,7 @@ import (
 	"github.com/rminnich/go9p"
 
 	"verif/core"
+	"verif/sched"
 	"verif/script"
 	"verif/wire"
 )
@@ -116,7 +117,180 @@ func c03Cases(tier string, seed int64) []core.Case {
 			}})
 		}
 	}
+	// the implementation cancels a request through FlushOp (req.Flush()) while its worker still holds it; the worker
+	// answers late, while newer requests have replies packed but not yet written: those replies must be untouched
+	for _, dotu := range []bool{true, false} {
+		dotu := dotu
+		cases = append(cases, core.Case{ID: fmt.Sprintf("late-answer-after-cancel/dotu=%v", dotu), Run: func(ctx *core.Ctx) core.Result {
+			return c03LateAfterCancel(ctx, dotu)
+		}})
+	}
 	return cases
+}
+
+// c03LateAfterCancel: request A is cancelled by the implementation's FlushOp calling req.Flush() while A's worker
+// is still inside the implementation; the writer is then parked so that the replies of a burst of newer requests are
+// packed but unsent; A's worker answers late (RespondRread / RespondError on a request already answered). Every
+// newer request must still get exactly the reply the implementation produced for it, and nothing else may appear.
+func c03LateAfterCancel(ctx *core.Ctx, dotu bool) core.Result {
+	var res core.Result
+	s := NewSess(Config{Dotu: dotu, Msize: 8192, Flush: true})
+	c := s.Dial()
+	defer func() {
+		s.Ctl.ReleaseAll()
+		c.Hangup()
+	}()
+	ver := "9P2000"
+	if dotu {
+		ver = "9P2000.u"
+	}
+	if r, err := c.Version(8192, ver, W); err != nil || r.Msg == nil {
+		res.Inconclusive = "c03: version failed"
+		return res
+	}
+	tag := uint16(0)
+	rpc := func(m *wire.Msg) *wire.Msg {
+		tag++
+		m.Tag = tag
+		r, err := c.Rpc(m, W)
+		if err != nil || r.Msg == nil {
+			return nil
+		}
+		return r.Msg
+	}
+	if a := rpc(&wire.Msg{Type: wire.Tattach, Fid: 1, Afid: wire.NOFID, Uname: "root", Nuname: 0}); a == nil || a.Type != wire.Rattach {
+		res.Inconclusive = "c03: attach failed"
+		return res
+	}
+	rounds := 12
+	if ctx.Tier == "thorough" {
+		rounds = 60
+	}
+	for round := 0; round < rounds && len(res.Violations) < 3; round++ {
+		ctx.Beat()
+		f := uint32(100 + round)
+		if w := rpc(&wire.Msg{Type: wire.Twalk, Fid: 1, Newfid: f, Wname: []string{fmt.Sprintf("f%d", round)}}); w == nil || w.Type != wire.Rwalk {
+			res.Inconclusive = "c03: setup walk failed"
+			return res
+		}
+		if o := rpc(&wire.Msg{Type: wire.Topen, Fid: f, Mode: 2}); o == nil || o.Type != wire.Ropen {
+			res.Inconclusive = "c03: setup open failed"
+			return res
+		}
+		// A: held in the implementation, cancelled through FlushOp
+		tag++
+		A := &wire.Msg{Type: wire.Tread, Fid: f, Offset: uint64(round) * 7, Count: uint32(200 + 100*(round%5)), Tag: tag}
+		pa := script.NewPlan()
+		pa.Gate = make(chan struct{})
+		pa.Entered = make(chan struct{})
+		if round%3 == 2 {
+			pa.Err = "late error text that is long enough to overwrite a header and more"
+			pa.Errnum = 5
+		}
+		s.Ops.SetPlan(c.ID, A.Tag, pa)
+		s.Ops.SetFlushMode(c.ID, A.Tag, "cancel")
+		seq0 := s.Log.Seq()
+		_ = c.Send(A)
+		select {
+		case <-pa.Entered:
+		case <-time.After(W):
+			res.Inconclusive = "c03: request never reached the implementation"
+			close(pa.Gate)
+			return res
+		}
+		if fl := rpc(&wire.Msg{Type: wire.Tflush, Oldtag: A.Tag}); fl == nil || fl.Type != wire.Rflush {
+			res.Inconclusive = "c03: Tflush not answered"
+			close(pa.Gate)
+			return res
+		}
+		// B…: a burst whose replies stay packed behind a parked writer
+		nB := 4 + 6*(round%4)
+		var bs []*wire.Msg
+		plans := map[uint16]*script.Plan{}
+		for i := 0; i < nB; i++ {
+			tag++
+			var m *wire.Msg
+			if i%2 == 0 {
+				m = &wire.Msg{Type: wire.Tread, Fid: f, Offset: uint64(1000*round + i), Count: uint32(30 + 11*i), Tag: tag}
+			} else {
+				m = &wire.Msg{Type: wire.Tstat, Fid: f, Tag: tag}
+			}
+			pl := script.NewPlan()
+			plans[m.Tag] = pl
+			s.Ops.SetPlan(c.ID, m.Tag, pl)
+			bs = append(bs, m)
+		}
+		hold := s.Ctl.HoldAt("send.dequeued", c.ID, int(bs[0].Tag), sched.AnyTag, 20*time.Second)
+		_ = c.Send(bs...)
+		parked := hold.WaitReached(W)
+		packed := 0
+		for _, m := range bs[1:] {
+			if s.Ctl.WaitPassed("respond.enter", c.ID, int(m.Tag), 1, W) {
+				packed++
+			}
+		}
+		close(pa.Gate) // the late answer
+		exited := false
+		for t0 := time.Now(); time.Since(t0) < W && !exited; {
+			for _, ev := range s.Log.Snapshot(seq0) {
+				if ev.Kind == "exit" && ev.Conn == c.ID && ev.Tag == A.Tag {
+					exited = true
+				}
+			}
+			if !exited {
+				time.Sleep(200 * time.Microsecond)
+			}
+		}
+		hold.Release()
+		res.Evals++
+		if !parked || !exited {
+			res.Count("late_answer_not_arranged", 1)
+		} else {
+			res.Count("late_answers_with_packed_unsent_replies", 1)
+			res.Count("replies_packed_during_late_answer", int64(packed))
+			res.Sig(fmt.Sprintf("late-after-cancel|nB=%d|err=%v|%v", nB, pa.Err != "", dotu))
+		}
+		ops := map[uint16]script.Event{}
+		det := map[string]interface{}{"round": round, "cancelled": A.String(), "burst": nB, "dotu": dotu}
+		want := map[uint16]bool{}
+		for _, m := range bs {
+			want[m.Tag] = true
+			r, err := c.WaitTag(m.Tag, W)
+			if err != nil || r.Msg == nil {
+				res.Violate("C03;missing-reply;late-after-cancel", fmt.Sprintf("no reply for %s sent after an implementation-cancelled request", m.String()), det)
+				continue
+			}
+			if len(ops) == 0 {
+				for _, ev := range s.Log.Snapshot(seq0) {
+					if ev.Kind == "op" && ev.Conn == c.ID {
+						ops[ev.Tag] = ev
+					}
+				}
+			}
+			exp := wire.Encode(expectedReply(m, plans[m.Tag], ops[m.Tag], 0, dotu), dotu)
+			if !bytes.Equal(exp, r.Raw) {
+				res.Violate("C03;wrong-content;late-after-cancel", fmt.Sprintf("reply to %s is not what the implementation produced for it: %s", m.String(), r.Msg.String()), det)
+			}
+		}
+		c.Quiesce(W)
+		for _, r := range c.Pending() {
+			if r.Msg == nil {
+				res.Violate("C03;undecodable;late-after-cancel", "undecodable frame after a late answer to a cancelled request", det)
+			} else {
+				res.Violate("C03;unsolicited-reply;late-after-cancel", "reply for a tag with no outstanding request: "+r.Msg.String(), det)
+			}
+		}
+		// drain whatever was reported so that the next round starts clean
+		for {
+			if _, err := c.Next(time.Millisecond); err != nil {
+				break
+			}
+		}
+		if round == 1 {
+			res.Sample(det)
+		}
+	}
+	return res
 }
 
 // c03Overlap: while the implementation's answer to a request is parked inside Respond, a second goroutine of the
